@@ -17,7 +17,7 @@ PID = 'C16'
 def run(tier, seed, t0):
     coq = coq_property(PID)
     driver = ensure_driver()
-    cfgs = ['std-strict', 'std-loose'] if tier == 'quick' else ['std-strict', 'std-loose', 'nostd-strict', 'nostd-loose']
+    cfgs = ['std-strict', 'nostd-loose'] if tier == 'quick' else ['std-strict', 'std-loose', 'nostd-strict', 'nostd-loose']
     exes, disagreements = ensure_harnesses(cfgs)
     failures = []
     stats = {'evaluations': 0, 'configs': list(exes), 'samples': []}
